@@ -39,20 +39,22 @@ func Generate(genseed uint64, stream string, thorough bool) *Case {
 	var g *dag.Graph
 	for {
 		g = dag.Random(r, o)
-		if stream != "twin" {
-			break
-		}
-		ok := false
+		ok, real := false, false
 		for _, n := range g.Nodes {
 			if n.TwinOf >= 0 {
 				ok = true
 			}
+			if !n.Foreign() {
+				real = true
+			}
 		}
-		if ok {
+		if real && (ok || stream != "twin") { // (a graph of foreign layers only has nothing to copy)
 			break
 		}
 	}
-	if stream != "twin" && stream != "mount" && stream != "sched" && r.Chance(1, 4) {
+	// (twins and Mount are not combined: the wrappers' Mount path takes no per-digest lock)
+	remoteMount := stream == "remote" && genseed%3 == 0
+	if stream != "twin" && stream != "mount" && stream != "sched" && !remoteMount && r.Chance(1, 4) {
 		addBlobTwin(r, g)
 	}
 	c := &Case{Stream: stream, Graph: g.Encode(), MapRoot: -1, FailNode: -1, GenSeed: genseed, Seed: r.U64(), Thorough: thorough}
@@ -113,7 +115,7 @@ func Generate(genseed uint64, stream string, thorough bool) *Case {
 	}
 	c.Mode = common.Pick(r, []string{"g", "g", "t", "t", "r"})
 	c.Src = common.Pick(r, []string{"mem", "mem", "oci", "ocire", "file"})
-	c.Dst = common.Pick(r, []string{"mem", "mem", "oci", "ocire"})
+	c.Dst = common.Pick(r, []string{"mem", "mem", "oci", "ocire", "file"})
 	c.SrcRef = common.Pick(r, []string{"v1", "latest", "rel-2.0"})
 	if r.Chance(3, 5) {
 		c.DstRef = common.Pick(r, []string{"copy", "v1", "stable"})
@@ -159,7 +161,7 @@ func Generate(genseed uint64, stream string, thorough bool) *Case {
 				set[tw] = true
 			}
 		}
-		c.Dst = common.Pick(r, []string{"mem", "oci", "oci", "ocire"})
+		c.Dst = common.Pick(r, []string{"mem", "oci", "oci", "ocire", "remote"})
 	case "mount":
 		// Mounter destination + MountFrom candidates.  A ReferencePusher root must be a manifest
 		// (a blob root falling back inside Mount is outside the model: PreCopy answers SkipNode
@@ -187,6 +189,39 @@ func Generate(genseed uint64, stream string, thorough bool) *Case {
 				c.FailNode = common.Pick(r, ids)
 				c.FailCb = common.Pick(r, []string{"mountfrom", "mounted", "pre", "post"})
 			}
+		}
+	case "remote":
+		// remote.Repository over the in-process registry as source and/or destination.  Registries tag
+		// manifests only: the (mapped) root is a manifest.
+		if len(manifests) == 0 {
+			c.Stream = "main"
+			break
+		}
+		if !g.Nodes[c.Root].IsManifest() {
+			c.Root = common.Pick(r, manifests)
+		}
+		if c.MapRoot >= 0 && !g.Nodes[c.MapRoot].IsManifest() {
+			c.MapRoot = common.Pick(r, manifests)
+		}
+		if c.Platform != "" && c.MapRoot >= 0 {
+			c.Platform = ""
+		}
+		if k := g.Nodes[c.Root].Kind; c.Platform != "" && k != dag.KIndex && k != dag.KDockerL {
+			c.Platform = ""
+		}
+		switch r.Intn(3) {
+		case 0:
+			c.Src = "remote"
+		case 1:
+			c.Dst = "remote"
+		default:
+			c.Src, c.Dst = "remote", "remote"
+		}
+		c.SrcRef = common.Pick(r, []string{"v1", "latest"})
+		if remoteMount {
+			c.Dst = "remote"
+			c.Mount = true
+			c.MapRoot, c.Platform = -1, ""
 		}
 	case "sched":
 		// controlled schedules (testing/synctest): contention matters, so small K
